@@ -3,9 +3,9 @@
 
   One line = one tool invocation:
 
-    xz <mode d|t> <stdout 0|1> <force> <nosparse> <nowarn> <single> <kind r|p> <append> <nonblock> <offset> <content> <nfiles>
+    xz <mode d|t> <stdout 0|1> <force> <nosparse> <nowarn> <single> <verbosity> <kind r|p> <append> <nonblock> <offset> <content> <nfiles>
        { <fmtKnown> <initWarn> <initRet> <warn> <ret> <isLzip> <trailing> <out> <raw> }*
-      -> exit=<n> trace=<events> off=<n> flags=<a><n> size=<n> content=<bytes> created=<bytes|none>;… ctrace=<events>;…
+      -> exit=<n> printed=<diagnostic lines> trace=<events> off=<n> flags=<a><n> size=<n> content=<bytes> created=<bytes|none>;… ctrace=<events>;…
 
     xzdec <lzmadec 0|1> <kind> <append> <nonblock> <offset> <content> <nfiles> { <ret> <trailing> <out> }*
       -> exit=<n> off=<n> size=<n> content=<bytes>
@@ -119,16 +119,16 @@ def parseDecFiles : Nat → List String → Option (List (List UInt8 × Ret × B
 
 def runXz (ws : List String) : Option String :=
   match ws with
-  | mode :: so :: force :: nosp :: nowarn :: single :: kind :: app :: nb :: off :: content :: nf :: rest => do
+  | mode :: so :: force :: nosp :: nowarn :: single :: verb :: kind :: app :: nb :: off :: content :: nf :: rest => do
     let m ← if mode == "d" then some Mode.decompress else if mode == "t" then some Mode.test else none
     let o : Opts := { mode := m, toStdout := (← parseBool so), force := (← parseBool force),
-                      noSparse := (← parseBool nosp), noWarn := (← parseBool nowarn), single := (← parseBool single) }
+                      noSparse := (← parseBool nosp), noWarn := (← parseBool nowarn), single := (← parseBool single), verbosity := (← verb.toNat?) }
     let d ← parseDest kind app nb off content
     let files ← parseXzFiles (← nf.toNat?) rest
     let r := xzRun cfg o files d
     let created := String.intercalate ";" (r.created.map fun c => match c with | none => "none" | some b => toRle b)
     let ctr := String.intercalate ";" (r.createdTraces.map traceStr)
-    pure s!"exit={xzExit o r} trace={traceStr r.trace} off={r.out.offset} flags={b01 r.out.flags.append}{b01 r.out.flags.nonblock} size={r.out.content.length} content={toRle r.out.content} created={created} ctrace={ctr}"
+    pure s!"exit={xzExit o r} printed={printedCount o.verbosity r.msgs} trace={traceStr r.trace} off={r.out.offset} flags={b01 r.out.flags.append}{b01 r.out.flags.nonblock} size={r.out.content.length} content={toRle r.out.content} created={created} ctrace={ctr}"
   | _ => none
 
 def runXzdec (ws : List String) : Option String :=
